@@ -515,6 +515,9 @@ class Checker:
             return True
         if lp is not None and lp[0] == 'loop' and lp[1] is not None and recognisable(lp):
             self.bad(slot, self.where(lp), '%s: the loop runs %s times, specified %s' % (what, pshow(lp[1]), reps[0]))
+        elif lp is None or (lp[0] == 'io' and recognisable(lp)) or lp[0] == 'slot':
+            # nothing / the next plain field comes where the repeated part should be: it is missing
+            self.bad(slot, self.where(lp), '%s; it is missing (next: %s)' % (what, _describe(lp)))
         else:
             self.shape(slot, self.where(lp), '%s, found %s' % (what, _describe(lp)))
         return False
@@ -2099,6 +2102,10 @@ def label_binding_rule(prog, res, rule='label-binding'):
         Rf = Renderer(fn_)
         for n in fn_.all_nodes({'IfStmt'}):
             c = Rf.render(n['cond'])
+            mle = re.match(r'^\(local:(\w+) <= (local:\w+|arg\d+)\.size\)$', c)
+            if mle and 'else' in n and any(fn_.nodes[x]['k'] == 'CXXMemberCallExpr' and fn_.nodes[x]['callee']['name'] == 'name' for x in fn_.descendants(n['then'])):
+                wrong.append('%s: element %s takes its name from the list also when %s == size (test is <=)' % (fn_.loc(n['id']), mle.group(1), mle.group(1)))
+                continue
             m = re.match(r'^\(local:(\w+) < (local:\w+|arg\d+)\.size\)$', c)
             if not m or 'else' not in n:
                 continue
